@@ -1,4 +1,5 @@
 import ChythonModel.Proofs.C10Rxn
+import ChythonModel.Props.C10
 /-!
 Witnesses for the C10 findings that were repaired in /repo (`status: fixed` in known_findings/C10.json).
 Informational: the models here are of the code BEFORE the fix.
@@ -40,5 +41,53 @@ theorem legacy_roles_partial (r g p : List Nat) (hp : p ≠ []) :
   have h3 : ((r ++ g ++ p).take (r ++ g ++ p).length).drop (r.length + g.length) = p := by
     rw [List.take_length]; exact List.drop_left' (by simp)
   rw [h1, h2, h3]
+
+/-! ## known finding `C10/roundtrip/bond-stereo/shared-atom` (status: known)
+
+`P(C)(=CC)=CC` with the phosphorus first and a mark on the bond P1=C3: both double bonds are perceived as stereogenic, the
+dictionary entry of the shared atom 1 is overwritten by the later unit (5, 1), `pack` writes the terminals (5, 1) for the
+marked bond and `unpack` puts the mark on P1=C5. -/
+
+open ChythonModel.Props.C10 in
+def exYlide : List PAtom :=
+  [{ num := 1, z := 15, iso := none, stereo := none, x := 0, y := 0, h := some 0, charge := 0, radical := false,
+     nbrs := [⟨2, 1, none⟩, ⟨3, 2, some true⟩, ⟨5, 2, none⟩] },
+   { num := 2, z := 6, iso := none, stereo := none, x := 0, y := 0, h := some 3, charge := 0, radical := false, nbrs := [⟨1, 1, none⟩] },
+   { num := 3, z := 6, iso := none, stereo := none, x := 0, y := 0, h := some 1, charge := 0, radical := false,
+     nbrs := [⟨1, 2, some true⟩, ⟨4, 1, none⟩] },
+   { num := 4, z := 6, iso := none, stereo := none, x := 0, y := 0, h := some 3, charge := 0, radical := false, nbrs := [⟨3, 1, none⟩] },
+   { num := 5, z := 6, iso := none, stereo := none, x := 0, y := 0, h := some 1, charge := 0, radical := false,
+     nbrs := [⟨1, 2, none⟩, ⟨6, 1, none⟩] },
+   { num := 6, z := 6, iso := none, stereo := none, x := 0, y := 0, h := some 3, charge := 0, radical := false, nbrs := [⟨5, 1, none⟩] }]
+
+/-- all hypotheses of the full statement hold and the round trip does not return the molecule -/
+def counterb (atoms : List PAtom) : Bool :=
+  match perceive atoms with
+  | .ok p => wfb ⟨atoms, p.terminals⟩ && marksOKb atoms (p.stereogenic.map (·.1)) &&
+      (match packFull atoms with
+        | .ok b => (match unpackFull b with | .ok d => d.atoms != atoms | .error _ => true)
+        | .error _ => true)
+  | .error _ => false
+
+theorem ylide_counter : counterb exYlide = true ∧
+    (match perceive exYlide with | .ok p => keysDisjointb (p.stereogenic.map (·.1)) | .error _ => true) = false := by
+  decide +kernel
+
+theorem stereo_roundtrip_full_false : ¬ ChythonModel.Props.C10.StereoRoundTripFull := by
+  intro h
+  have hc := ylide_counter.1
+  unfold counterb at hc
+  cases hp : perceive exYlide with
+  | error e => simp [hp] at hc
+  | ok p =>
+    simp only [hp, Bool.and_eq_true] at hc
+    obtain ⟨⟨hw, hm⟩, hrest⟩ := hc
+    obtain ⟨bytes, e1, e2⟩ := h exYlide p hp (wfb_sound _ hw) (marksOKb_sound _ _ hm) []
+    simp only [e1, List.append_nil] at hrest e2
+    cases hu : unpackFull bytes with
+    | error e => simp [hu, Except.map] at e2
+    | ok d =>
+      simp only [hu, Except.map, Except.ok.injEq] at e2 hrest
+      simp [e2] at hrest
 
 end ChythonModel.Findings.C10
